@@ -151,6 +151,8 @@ func c18Check(c c18Case, r *ev.Rec) error {
 func TestC18_Visibility(t *testing.T) {
 	ev.Run(t, ev.Spec[c18Case]{ID: "C18", Name: "Visibility", Quick: 500, Thorough: 25000,
 		Rule: "generated workspaces of 1-6 files with random import DAGs (public and non-public edges, chains, diamonds); for the resolver of EVERY compiled file and EVERY element name, extension (by name and by extendee+number) and file path of the whole workspace: found <=> the defining file is the file itself, a direct import, or reachable from a direct import through public imports only (reference closure computed on the model); found elements must be the right ones; non-trivial = some file is invisible from some resolver AND some file is visible only through a public re-export; distinct by workspace",
-		Gen:  func(t *rapid.T) c18Case { return c18FromWS(gen.GenWorkspace(t, gen.Config{MaxFiles: 6, NoOptions: true, NoDefaults: true})) },
+		Gen: func(t *rapid.T) c18Case {
+			return c18FromWS(gen.GenWorkspace(t, gen.Config{MaxFiles: 6, NoOptions: true, NoDefaults: true}))
+		},
 		Check: c18Check})
 }
